@@ -365,7 +365,7 @@ def make_specs(run, n, langs=LANGS, stages=("gen", "erase"), cap=60, base=None):
     for i in range(n):
         lang = langs[i % len(langs)]
         specs.append({"lang": lang, "seed": run.rng.randrange(1, 10 ** 6) if base is None else base + i,
-                      "switches": list(run.rng.choice(sws)) if run.rng.random() < 0.3 else [0, 0, 0, 0],
+                      "switches": list(run.rng.choice(sws)) if base is None and run.rng.random() < 0.3 else [0, 0, 0, 0],
                       "max_depth": 6, "stages": list(stages), "export": True,
                       "translate": ["java"] if lang == "java" else None, "cap": cap,
                       "plugins": ["plugin_tda"], "erasure_options": {}})
@@ -734,12 +734,14 @@ def check(run):
     if os.path.isdir(corpus):
         for f in sorted(os.listdir(corpus)):
             specs.append(json.load(open(os.path.join(corpus, f)))["spec"])
+    langs = tuple(os.environ.get("C03_LANGS", ",".join(LANGS)).split(","))
+    base = int(os.environ["C03_BASE"]) if "C03_BASE" in os.environ else None   # calibration: seeds base, base+1, …
     if run.tier == "quick":
-        specs += make_specs(run, 100, cap=40)
-        run_all(run, specs, budget_s=115)
+        specs += make_specs(run, int(os.environ.get("C03_N", "100")), langs=langs, cap=40, base=base)
+        run_all(run, specs, budget_s=int(os.environ.get("C03_BUDGET", "115")))
     else:
-        specs += make_specs(run, 4000, cap=60)
-        run_all(run, specs, budget_s=1300)
+        specs += make_specs(run, int(os.environ.get("C03_N", "4000")), langs=langs, cap=60)
+        run_all(run, specs, budget_s=int(os.environ.get("C03_BUDGET", "1300")))
 
 
 def replay(run, rp):
